@@ -436,6 +436,9 @@ type ilScenario struct {
 	A, B  string   `json:"a"`
 	CP    string   `json:"cp"`
 	Bound int      `json:"preemptions"`
+	// Fault409: one of the first Fault409 requests of pass A may be answered 409 Conflict without
+	// taking effect (the explorer picks which, or none; it counts as one deviation like a preemption)
+	Fault409 int `json:"fault409,omitempty"`
 }
 
 func ilBody(sc ilScenario) explore.Body {
@@ -457,11 +460,17 @@ func ilBody(sc ilScenario) explore.Body {
 		}
 		before := w.S.Clone()
 		passes := map[string]*world.Pass{}
+		plans := map[string]*world.Plan{sc.A: {Yield: true}, sc.B: {Yield: true}}
+		if sc.Fault409 > 0 {
+			if c := ctx.Choose(sc.Fault409+1, 1, "409-at-request-of-pass-"+sc.A); c > 0 {
+				plans[sc.A].FaultAt, plans[sc.A].Fault = c-1, world.ConflictBefore
+			}
+		}
 		sch := vsched.Run(ctx, 4000, func() {
 			for _, n := range []string{sc.A, sc.B} {
 				n := n
 				vsched.GoNamed("pass-"+n, func() {
-					passes[n] = w.Reconcile(world.CtrlObjectSet, osw.NN(n), &world.Plan{Yield: true})
+					passes[n] = w.Reconcile(world.CtrlObjectSet, osw.NN(n), plans[n])
 				})
 			}
 		})
@@ -495,6 +504,15 @@ func ilBody(sc ilScenario) explore.Body {
 		for _, f := range Invariant(w) {
 			viol = append(viol, f.Message)
 		}
+		// did pass A go on writing to managed objects after one of its requests was answered 409?
+		if pl, p := plans[sc.A], passes[sc.A]; len(viol) > 0 && pl.Fault != world.NoFault && p != nil {
+			for i, r := range p.Reqs {
+				if i > pl.FaultAt && r.Key.Group == world.TestGroup && r.IsWrite() && r.Err == nil && r.Changed() {
+					viol = append(viol, fmt.Sprintf("(pass %s went on after request #%d was answered 409: %s)", sc.A, pl.FaultAt, r))
+					break
+				}
+			}
+		}
 		var ctl []string
 		for _, k := range w.S.SortedKeys() {
 			if k.Group == world.TestGroup {
@@ -522,6 +540,9 @@ func ilScenarios(quick bool) []ilScenario {
 		{Warm: []string{"r1", "r2", "archive:r1"}, A: "r1", B: "r3", Bound: 2},
 		{Warm: []string{"r1", "r2", "delete:r1"}, A: "r1", B: "r3", Bound: 2},
 		{Warm: []string{"r1", "archive:r1"}, A: "r1", B: "r2", Bound: 2},
+		// a request of the older revision's pass is answered 409 while the newer revision adopts
+		{Warm: []string{"r1"}, A: "r1", B: "r2", Bound: 2, Fault409: 14},
+		{Warm: []string{"r1", "r2"}, A: "r2", B: "r3", Bound: 2, Fault409: 14},
 	}
 	if !quick {
 		for i := range out {
@@ -534,7 +555,7 @@ func ilScenarios(quick bool) []ilScenario {
 
 func runIL(o checks.Opts) *report.Report {
 	rep := report.New("C02", "interleavings")
-	rep.Rule = "two revisions' reconcile passes of the chain r1<-r2<-r3 run as threads with a scheduling point before every API request, after an atomic warm-up sequence (which may archive or delete the oldest revision, so that its teardown releases objects while a newer revision adopts them); every interleaving with <= `preemptions` preemptions; same per-request monitor and state invariant; distinct = final controller per object"
+	rep.Rule = "two revisions' reconcile passes of the chain r1<-r2<-r3 run as threads with a scheduling point before every API request, after an atomic warm-up sequence (which may archive or delete the oldest revision, so that its teardown releases objects while a newer revision adopts them); every interleaving with <= `preemptions` preemptions (two scenarios: one request of the older revision's pass may also be answered 409 without effect, which counts like a preemption); same per-request monitor and state invariant; distinct = final controller per object"
 	scs := ilScenarios(o.Quick())
 	rep.Bounds["scenarios"] = len(scs)
 	for i, sc := range scs {
@@ -542,7 +563,7 @@ func runIL(o checks.Opts) *report.Report {
 			continue
 		}
 		rep.Bounds["preemptions"] = sc.Bound
-		e := &explore.Explorer{Bound: sc.Bound}
+		e := &explore.Explorer{Bound: sc.Bound, MaxViol: 3000}
 		st := e.Explore(ilBody(sc))
 		if len(st.Divergences) > 0 {
 			rep.Fault = st.Divergences[0]
@@ -555,18 +576,36 @@ func runIL(o checks.Opts) *report.Report {
 		for k, v := range st.Outcomes {
 			rep.Outcomes[fmt.Sprintf("%s|%s: %s", sc.A, sc.B, k)] += v
 		}
-		for j, v := range st.Violations {
-			if j > 0 {
-				break
-			}
-			rep.AddViolation(report.Violation{Identity: "interleaving " + strings.SplitN(v.Message, ":", 2)[0], Message: v.Message, Choices: v.Choices, Labels: v.Labels, Params: map[string]any{"scenario": sc}, Trace: v.Log})
+		added := int64(0)
+		for _, v := range st.Violations {
+			n := len(rep.Violations)
+			rep.AddViolation(report.Violation{Identity: ilIdentity(sc, v.Message), Message: v.Message, Choices: v.Choices, Labels: v.Labels, Params: map[string]any{"scenario": sc}, Trace: v.Log})
+			added++
+			_ = n
 		}
-		if st.NViolations > 0 {
-			rep.NViolations += st.NViolations - 1
+		if st.NViolations > added {
+			rep.NViolations += st.NViolations - added
 		}
 		rep.Samples = append(rep.Samples, map[string]any{"scenario": sc})
 	}
 	return rep
+}
+
+// ilIdentity: what went wrong (the first monitor named in the message), in which scenario, and
+// whether the pass went on writing after a 409.
+func ilIdentity(sc ilScenario, msg string) string {
+	kind := "other"
+	for _, k := range [][2]string{{"lowers the recorded revision", "revision-lowered"}, {"takes control of an object recorded for", "took-object-of-newer-revision"}, {"takes control from", "took-object-from-newer-revision"}, {"controllers", "two-controllers"}, {"makes", "foreign-controller-set"}, {"is not kept as plain owner", "former-controller-dropped"}, {"panic", "panic"}, {"deadlock", "deadlock"}} {
+		if strings.Contains(msg, k[0]) {
+			kind = k[1]
+			break
+		}
+	}
+	id := fmt.Sprintf("interleaving %s a=%s b=%s warm=%v", kind, sc.A, sc.B, sc.Warm)
+	if strings.Contains(msg, "went on after request #") {
+		id += " after-409"
+	}
+	return id
 }
 
 func replayIL(v report.Violation) string {
